@@ -607,6 +607,39 @@ def run(P, R, tier):
     transfer_rule(P, R)
     cvode_restart_rule(P, R)
     errmax_rule(P, R)
+    clamp_rule(P, R)
+
+
+def clamp_rule(P, R):
+    """"No more is transferred than the reactant holds": calc_final_kinetic_reaction caps the amount reacted in the current
+    (sub-)step at the amount the reactant held at the start of THAT (sub-)step: `if (moles > m_temp[i]) Set_moles(m_temp[i])`.
+    The bound tested and the bound assigned must be the same quantity; testing another bound (e.g. the amount at the start of
+    the whole time step) lets a later sub-step react more than is left."""
+    R.rule("C12.clamp", "calc_final_kinetic_reaction: the exhaustion cap tests and assigns the same bound", minimum=1)
+    f = P.one("Phreeqc::calc_final_kinetic_reaction")
+    n = 0
+    for x in T.walk(f["body"]):
+        if x[0] != "If":
+            continue
+        c = T.strip_casts(x[2])
+        if not (c[0] == "Bin" and c[2] in (">", ">=")):
+            continue
+        l = T.strip_casts(c[3])
+        if not (l[0] == "Call" and T.callee_name(l) == "Get_moles"):
+            continue
+        sets = [k for k in T.calls(x[3]) if T.callee_name(k) == "Set_moles" and T.is_node(k[3]) and T.text(k[3]) == T.text(l[3])]
+        if not sets:
+            continue
+        n += 1
+        tested, assigned = T.text(c[4]).replace(" ", ""), T.text(sets[0][4][0]).replace(" ", "")
+        inst = "cap@%d" % x[1]
+        if tested == assigned:
+            R.ok("C12.clamp", inst, "if (moles > %s) moles = %s" % (tested, assigned))
+        else:
+            R.violation("C12.clamp", inst, "the cap tests `moles > %s` but assigns %s: a sub-step whose reaction exceeds what is left (but not %s) is not capped and the system receives more "
+                        "than the reactant loses" % (tested, assigned, tested), file=f["file"], line=x[1], function=f["q"])
+    if n == 0:
+        R.anchor_missing("C12.clamp", "calc_final_kinetic_reaction: the exhaustion cap `if (Get_moles() > B) Set_moles(B)` was not found")
 
 
 def errmax_rule(P, R):
